@@ -11,6 +11,7 @@ import (
 	"sync/atomic"
 	"time"
 
+	"go.miragespace.co/specter/kv/memory"
 	"go.miragespace.co/specter/spec/chord"
 )
 
@@ -79,6 +80,7 @@ type ChurnResult struct {
 	Converge       Convergence
 	Stores         map[uint64][]string // raw keys per live node (RangeKeys(0,0)) after quiescence
 	StoreErr       string
+	Listed         map[uint64][]string // keys per live node as reported by the store's ListKeys("")
 	MemberLog      []string
 	JoinsOK        int
 	JoinsFailed    int
@@ -189,7 +191,7 @@ func (c *churnRun) exec(r *rand.Rand, o OpRec) OpRec {
 
 // RunChurnKV executes the scenario. The caller applies the oracles.
 func RunChurnKV(cfg ChurnCfg, scratch string) *ChurnResult {
-	res := &ChurnResult{Stores: map[uint64][]string{}}
+	res := &ChurnResult{Stores: map[uint64][]string{}, Listed: map[uint64][]string{}}
 	mode := Direct
 	if cfg.NetV {
 		mode = NetV
@@ -197,6 +199,25 @@ func RunChurnKV(cfg ChurnCfg, scratch string) *ChurnResult {
 	lab := New(Options{Mode: mode, Seed: cfg.Seed, HookDelayMaxMicro: cfg.DelayMicro, RecordEvents: true, RecordStores: true, ScratchDir: scratch})
 	defer lab.Close()
 	c := &churnRun{cfg: cfg, lab: lab, leaving: map[uint64]bool{}}
+	if !cfg.SingleWriter {
+		// widen the gap between "entry fetched" and "entry used" inside the memory store (also
+		// under AOF): concurrent operations on one key interleave there
+		var hmu sync.Mutex
+		hr := rand.New(rand.NewSource(cfg.Seed ^ 0x5eed))
+		memory.VerifSetHook(func(string) {
+			hmu.Lock()
+			x := hr.Intn(12)
+			d := 20 + hr.Intn(200)
+			hmu.Unlock()
+			switch {
+			case x < 2:
+				runtimeGosched()
+			case x < 4:
+				time.Sleep(time.Duration(d) * time.Microsecond)
+			}
+		})
+		defer memory.VerifSetHook(nil)
+	}
 	rng := rand.New(rand.NewSource(cfg.Seed))
 	used := map[uint64]bool{}
 	newID := func(r *rand.Rand) uint64 {
@@ -248,6 +269,22 @@ func RunChurnKV(cfg ChurnCfg, scratch string) *ChurnResult {
 		return res
 	}
 
+	leaseStart := time.Now()
+	if cfg.Leases {
+		// lease-only keys with the minimum TTL: they are expired (but still stored) by the time
+		// the second churn phase moves their ranges
+		for i := 0; i < 8; i++ {
+			key := []byte(fmt.Sprintf("lz%02d", i))
+			for a := 0; a < 200; a++ {
+				_, err := c.entry(rng).Node.Acquire(context.Background(), key, time.Second)
+				if err == nil || !chord.ErrorIsRetryable(err) {
+					break
+				}
+				time.Sleep(2 * time.Millisecond)
+			}
+		}
+		leaseStart = time.Now()
+	}
 	var wg sync.WaitGroup
 	var stopChurn atomic.Bool
 	var abandoned atomic.Int64
@@ -269,7 +306,23 @@ func RunChurnKV(cfg ChurnCfg, scratch string) *ChurnResult {
 			for seq := 0; seq < cfg.OpsPerClient; seq++ {
 				k := myKeys[r.Intn(len(myKeys))]
 				o := OpRec{Client: cl, Seq: seq, Key: KeyName(k)}
+				hot := !cfg.SingleWriter && r.Intn(100) < 35
+				if hot {
+					// contention on one mostly-empty key: deletes of the (empty) value racing with
+					// first appends, removes and membership tests of a single child
+					o.Key = KeyName(0)
+				}
 				switch x := r.Intn(100); {
+				case hot && x < 30:
+					o.Kind = OpDelete
+				case hot && x < 55:
+					o.Kind, o.Arg = OpAppend, "ch0"
+				case hot && x < 75:
+					o.Kind, o.Arg = OpRemove, "ch0"
+				case hot && x < 90:
+					o.Kind, o.Arg = OpContains, "ch0"
+				case hot:
+					o.Kind = OpList
 				case x < 22:
 					o.Kind, o.Arg = OpPut, fmt.Sprintf("%s/c%d/s%d", o.Key, cl, seq)
 				case x < 32:
@@ -400,6 +453,36 @@ func RunChurnKV(cfg ChurnCfg, scratch string) *ChurnResult {
 	}
 	res.Abandoned = int(abandoned.Load())
 
+	if cfg.Leases {
+		if d := 1200*time.Millisecond - time.Since(leaseStart); d > 0 {
+			time.Sleep(d) // real time: the leases must have run out (the store reads the wall clock)
+		}
+		r2 := rand.New(rand.NewSource(cfg.Seed + 4242))
+		for e := 0; e < 6; e++ {
+			if e%3 == 2 && len(lab.Live()) > 2 {
+				c.entry(r2).Leave()
+			} else {
+				m, err := lab.Spawn(newID(r2), be)
+				if err == nil {
+					if m.Join(c.entry(r2)) == nil {
+						c.hmu.Lock()
+						c.joined = append(c.joined, m)
+						c.hmu.Unlock()
+						res.JoinsOK++
+					}
+				}
+			}
+			c.hmu.Lock()
+			kept := c.joined[:0]
+			for _, m := range c.joined {
+				if m.IsMember() {
+					kept = append(kept, m)
+				}
+			}
+			c.joined = kept
+			c.hmu.Unlock()
+		}
+	}
 	// ---- quiescence
 	n := int64(len(lab.Live()))
 	res.Converge = lab.WaitConverged(6*n+20, 3*time.Minute, true)
@@ -437,6 +520,17 @@ func RunChurnKV(cfg ChurnCfg, scratch string) *ChurnResult {
 				res.Stores[m.ID] = append(res.Stores[m.ID], string(k))
 			}
 			sort.Strings(res.Stores[m.ID])
+			// what the store lists (a second view: listing does not go through the range scan)
+			if listed, err := m.Node.VerifKV().ListKeys(context.Background(), nil); err == nil {
+				seen := map[string]bool{}
+				for _, kc := range listed {
+					if k := string(kc.GetKey()); !seen[k] {
+						seen[k] = true
+						res.Listed[m.ID] = append(res.Listed[m.ID], k)
+					}
+				}
+				sort.Strings(res.Listed[m.ID])
+			}
 		}
 	}
 	// distinctness signature: interleaving of membership hook events across nodes
